@@ -75,6 +75,7 @@ func cmdCheck(args []string) int {
 		*tier = "quick"
 	}
 	seed := envInt("VERIF_SEED", 0)
+	replayProp = id
 	ps, ok := props[id]
 	if !ok {
 		fmt.Fprintln(os.Stderr, "unknown property", id)
